@@ -168,6 +168,9 @@ class ModuleInfo:
         return os.path.relpath(self.path, REPO)
 
 
+_PARSE_CACHE: Dict[Tuple[str, str], "ModuleInfo"] = {}
+
+
 class Repo:
     def __init__(self, root: str = None, overlay: Dict[str, str] = None):
         """overlay: relative path -> replacement source text (self-test
@@ -195,7 +198,15 @@ class Repo:
                     else:
                         with open(path, encoding="utf-8") as f:
                             src = f.read()
-                    self.modules[rel] = ModuleInfo(rel, path, src)
+                    key = (path, hashlib.sha256(src.encode()).hexdigest())
+                    mi = _PARSE_CACHE.get(key)
+                    if mi is None:
+                        mi = ModuleInfo(rel, path, src)
+                        _PARSE_CACHE[key] = mi
+                    else:
+                        for c in mi.classes.values():
+                            c._mro = None
+                    self.modules[rel] = mi
                 except SyntaxError as e:
                     self.parse_errors.append((path, str(e)))
         self._subclasses = None
